@@ -23,7 +23,14 @@ func gateCall(name string, ins []tensor.Tensor) (out string) {
 		return "GOPanic"
 	}
 	given := append([]tensor.Tensor{}, ins...)
-	res, err := op.ValidateInputs(ins)
+	// the caller's slice has spare capacity that still holds tensors of an earlier call: the gate must
+	// present the omitted optional inputs as absent, not whatever lies behind the slice's length
+	buf := make([]tensor.Tensor, len(ins), len(ins)+4)
+	copy(buf, ins)
+	for i := len(ins); i < cap(buf); i++ {
+		buf[:cap(buf)][i] = tensor.New(tensor.WithShape(1), tensor.WithBacking([]float32{7}))
+	}
+	res, err := op.ValidateInputs(buf)
 	if err != nil {
 		var ie *ops.InputError
 		if errors.As(err, &ie) {
